@@ -14,9 +14,9 @@ from vf.oracles import peaks as O
 PROP_ID = 'C12'
 TECHNIQUE = ('runtime post-condition monitors (functional oracle for crossings, assertion set of the statement for '
              'switched peaks); exhaustive small-alphabet + random workload')
-RULE = ('cases = calls of the real functions. Exhaustive part: every sequence over {-2..2} of length 1..7 (quick) / 1..8 '
+RULE = ('cases = calls of the real functions. Exhaustive part: every sequence over {-2..2} of length 1..7 (quick) / 1..9 '
         '(thorough) with keep_adj_zeros in {False, True} and tol=0, and every sequence over {-3..3} of length 2..5 (quick) / '
-        '2..6 (thorough) with tol in {0, 0.5, 1, 1.5, 2.5} (distinct by construction; non-trivial = series with at least '
+        '2..7 (thorough) with tol in {0, 0.5, 1, 1.5, 2.5} (distinct by construction; non-trivial = series with at least '
         'two distinct values). Random part: series up to 5000 samples with >=3 levels per excursion, runs of exact zeros, '
         'non-zero/negative starts, tol in {0} u U(0, max|x|); distinct = digest(values, options).')
 ASSUMPTIONS = ['NaN-free real input', 'tol >= 0',
@@ -24,11 +24,11 @@ ASSUMPTIONS = ['NaN-free real input', 'tol >= 0',
                'whose domain excludes constant series); constant series are counted as observations',
                'ties: an index is "at the largest |value|" of its excursion when its |value| equals the excursion maximum']
 EXHAUSTIVE = {'quick': '{-2..2}^n, n=1..7, x keep_adj_zeros {F,T}; {-3..3}^n, n=2..5, x tol {0,.5,1,1.5,2.5}',
-              'thorough': '{-2..2}^n, n=1..8, x keep_adj_zeros {F,T}; {-3..3}^n, n=2..6, x tol {0,.5,1,1.5,2.5}'}
+              'thorough': '{-2..2}^n, n=1..9, x keep_adj_zeros {F,T}; {-3..3}^n, n=2..7, x tol {0,.5,1,1.5,2.5}'}
 MIN_EVALS = {'quick': {'crossings==reference': 150000, 'switched.assertions(tol=0)': 80000, 'switched.tol-subsequence': 40000,
                        'crossings.tol-subsequence': 40000},
-             'thorough': {'crossings==reference': 700000, 'switched.assertions(tol=0)': 400000,
-                          'switched.tol-subsequence': 300000, 'crossings.tol-subsequence': 300000}}
+             'thorough': {'crossings==reference': 2500000, 'switched.assertions(tol=0)': 1500000,
+                          'switched.tol-subsequence': 1500000, 'crossings.tol-subsequence': 1500000}}
 CTX = None
 K4 = 'C12/tol-split-excursion'
 
@@ -223,7 +223,7 @@ def run_shard(ctx):
     idx = 0
     n_enum = 0
     n_nt = 0
-    for L in range(1, (7 if quick else 8) + 1):
+    for L in range(1, (7 if quick else 9) + 1):
         for seq in itertools.product(range(-2, 3), repeat=L):
             idx += 1
             if idx % ctx.nshards != ctx.shard:
@@ -245,7 +245,7 @@ def run_shard(ctx):
     # -- exhaustive B: {-3..3}^n with tolerances ----------------------------------------------------------------------
     idx = 0
     n_enum = 0
-    for L in range(2, (5 if quick else 6) + 1):
+    for L in range(2, (5 if quick else 7) + 1):
         for seq in itertools.product(range(-3, 4), repeat=L):
             idx += 1
             if idx % ctx.nshards != ctx.shard or len(set(seq)) < 2:
